@@ -46,9 +46,9 @@ def program_slices(tier):
                         [[], ["untagged"]], [], [[], ["inline"]] if q else [[], ["inline"], ["flatten"], ["optional"]],
                         tys2=("i32",), gen=corpus.gen_config(gargs if not q else ["i32", "opt_i32"], ["T", "opt_T", "vec_T", "gen_T"] if q else list(corpus.PTOKS)))))
     if not q:
-        sl.append(("E4", sc(["enum"], reprs, [[], ["rename_all_fields"]], [], ["struct2", "newtype", "tuple"], [[], ["untagged"], ["rename_all"]],
-                            ["opt_i32", "inner", "tage", "gen_i32"],
-                            [[], ["flatten"], ["optional_ssi"], ["inline"], ["rename"]], maxvariants=2, tys2=("string",))))
+        # two variants with data next to each other (kept small: the programs of a slice multiply per variant)
+        sl.append(("E4", sc(["enum"], ["int", "adj", "unt"], [[], ["rename_all_fields"]], [], ["struct2", "newtype", "tuple"], [[], ["untagged"]],
+                            ["opt_i32", "tage"], [[], ["inline"]], maxvariants=2, tys2=("string",))))
     return sl
 
 
